@@ -638,3 +638,302 @@ vharness! {
         vcover!(pkt.auth_method.is_some() && pkt.auth_data.is_some() && pkt.reason_string.is_some() && pkt.user_properties.len() == 1, "all four properties");
     }
 }
+
+// ---- CONNECT ------------------------------------------------------------------------------------
+fn any_last_will5<const S: usize>() -> LastWill {
+    LastWill {
+        qos: vh::any_qos(),
+        retain: vk::any_bool(),
+        topic: vh::any_str::<S>(),
+        message: vh::any_bin::<S>(),
+        will_delay_interval_sec: vh::any_opt_u32(),
+        correlation_data: vh::any_opt_bin::<S>(),
+        message_expiry_interval: vh::any_opt_nz32(),
+        content_type: vh::any_opt_str::<S>(),
+        user_properties: any_user_props::<1, S>(),
+        is_utf8_payload: vh::any_opt_bool(),
+        response_topic: vh::any_opt_str::<S>(),
+    }
+}
+
+/// 3.1.3.2 will properties: 0x18 u32, 0x01 byte, 0x02 u32, 0x03 str, 0x08 str, 0x09 bin, 0x26 pair
+fn spec_check_will_props(r: &mut Rd<'_>, w: &LastWill) -> bool {
+    let end = props_begin(r);
+    let mut ok = true;
+    let (mut s18, mut s01, mut s02, mut s03, mut s08, mut s09) = (false, false, false, false, false, false);
+    let mut idx = 0;
+    let mut guard = 0;
+    while r.pos < end && !r.bad && guard < 9 {
+        match r.u8() {
+            0x18 => { ok &= !s18; s18 = true; ok &= Some(r.u32()) == w.will_delay_interval_sec; }
+            0x01 => { ok &= !s01; s01 = true; let b = r.u8(); ok &= b <= 1 && Some(b == 1) == w.is_utf8_payload; }
+            0x02 => { ok &= !s02; s02 = true; ok &= Some(r.u32()) == w.message_expiry_interval.map(|v| v.get()); }
+            0x03 => { ok &= !s03; s03 = true; match &w.content_type { Some(s) => ok &= r.expect_lp(s.as_bytes()), None => ok = false } }
+            0x08 => { ok &= !s08; s08 = true; match &w.response_topic { Some(s) => ok &= r.expect_lp(s.as_bytes()), None => ok = false } }
+            0x09 => { ok &= !s09; s09 = true; match &w.correlation_data { Some(s) => ok &= r.expect_lp(s), None => ok = false } }
+            0x26 => ok &= expect_user_prop(r, &w.user_properties, &mut idx),
+            _ => ok = false,
+        }
+        guard += 1;
+    }
+    ok && r.pos == end && idx == w.user_properties.len()
+        && s18 == w.will_delay_interval_sec.is_some() && s01 == w.is_utf8_payload.is_some()
+        && s02 == w.message_expiry_interval.is_some() && s03 == w.content_type.is_some()
+        && s08 == w.response_topic.is_some() && s09 == w.correlation_data.is_some()
+}
+
+/// 3.1.2.11 connect properties: 0x11 u32 (default 0), 0x15 str, 0x16 bin, 0x17 byte (default 1),
+/// 0x19 byte (default 0), 0x21 u16 (absent = 65535, value 0 illegal), 0x27 u32 (absent = no limit,
+/// 0 illegal), 0x22 u16 (default 0), 0x26 pair. A property whose value equals its default may be
+/// omitted or sent; the reader accepts both.
+fn spec_check_connect_props(r: &mut Rd<'_>, c: &Connect) -> bool {
+    let end = props_begin(r);
+    let mut ok = true;
+    let (mut s11, mut s15, mut s16, mut s17, mut s19, mut s21, mut s27, mut s22) =
+        (false, false, false, false, false, false, false, false);
+    let mut idx = 0;
+    let mut guard = 0;
+    while r.pos < end && !r.bad && guard < 10 {
+        match r.u8() {
+            0x11 => { ok &= !s11; s11 = true; ok &= r.u32() == c.session_expiry_interval_secs; }
+            0x15 => { ok &= !s15; s15 = true; match &c.auth_method { Some(s) => ok &= r.expect_lp(s.as_bytes()), None => ok = false } }
+            0x16 => { ok &= !s16; s16 = true; match &c.auth_data { Some(s) => ok &= r.expect_lp(s), None => ok = false } }
+            0x17 => { ok &= !s17; s17 = true; let b = r.u8(); ok &= b <= 1 && (b == 1) == c.request_problem_info; }
+            0x19 => { ok &= !s19; s19 = true; let b = r.u8(); ok &= b <= 1 && (b == 1) == c.request_response_info; }
+            0x21 => { ok &= !s21; s21 = true; ok &= Some(r.u16()) == c.receive_max.map(|v| v.get()); }
+            0x27 => { ok &= !s27; s27 = true; ok &= Some(r.u32()) == c.max_packet_size.map(|v| v.get()); }
+            0x22 => { ok &= !s22; s22 = true; ok &= r.u16() == c.topic_alias_max; }
+            0x26 => ok &= expect_user_prop(r, &c.user_properties, &mut idx),
+            _ => ok = false,
+        }
+        guard += 1;
+    }
+    ok && r.pos == end && idx == c.user_properties.len()
+        && (s11 || c.session_expiry_interval_secs == 0)
+        && s15 == c.auth_method.is_some() && s16 == c.auth_data.is_some()
+        && (s17 || c.request_problem_info) && (s19 || !c.request_response_info)
+        && s21 == c.receive_max.is_some() && s27 == c.max_packet_size.is_some()
+        && (s22 || c.topic_alias_max == 0)
+}
+
+fn any_connect5<const S: usize>() -> Connect {
+    Connect {
+        clean_start: vk::any_bool(),
+        keep_alive: vk::any_u16(),
+        session_expiry_interval_secs: vk::any_u32(),
+        auth_method: vh::any_opt_str::<S>(),
+        auth_data: vh::any_opt_bin::<S>(),
+        request_problem_info: vk::any_bool(),
+        request_response_info: vk::any_bool(),
+        receive_max: vh::any_opt_nz16(),
+        topic_alias_max: vk::any_u16(),
+        user_properties: any_user_props::<1, S>(),
+        max_packet_size: vh::any_opt_nz32(),
+        last_will: None,
+        client_id: vh::any_str::<S>(),
+        username: vh::any_opt_str::<S>(),
+        password: vh::any_opt_bin::<S>(),
+    }
+}
+
+fn check_connect5(c: &Connect, out: &Bytes) {
+    let (mut r, _rl) = rd_header5(out, 0x10);
+    assert!(r.expect_lp(b"MQTT"));
+    assert!(r.u8() == 5, "protocol version 5");
+    let mut flags = 0u8;
+    if c.username.is_some() { flags |= 0x80; }
+    if c.password.is_some() { flags |= 0x40; }
+    if let Some(w) = &c.last_will {
+        flags |= 0x04;
+        if w.retain { flags |= 0x20; }
+        flags |= vh::qos_num(w.qos) << 3;
+    }
+    if c.clean_start { flags |= 0x02; }
+    assert!(r.u8() == flags, "connect flags (bit 0 reserved = 0)");
+    assert!(r.u16() == c.keep_alive);
+    assert!(spec_check_connect_props(&mut r, c));
+    assert!(r.expect_lp(c.client_id.as_bytes()));
+    if let Some(w) = &c.last_will {
+        assert!(spec_check_will_props(&mut r, w));
+        assert!(r.expect_lp(w.topic.as_bytes()));
+        assert!(r.expect_lp(&w.message));
+    }
+    if let Some(u) = &c.username { assert!(r.expect_lp(u.as_bytes())); }
+    if let Some(p) = &c.password { assert!(r.expect_lp(p)); }
+    assert!(r.at_end() && !r.bad);
+}
+
+vharness! {
+    //@ props: C01
+    //@ tier: quick
+    //@ functions: v5::Codec::encodev, EncodeLtd for Connect, Connect::properties_len, encode_property(_default), encoded_property_size(_default), decode::decode_packet, Connect::decode
+    //@ bounds: no will; every bool/Option symbolic; keep-alive, session expiry, receive max, topic alias max, max packet size full width; client id, username, password, auth method, auth data 0..=1 byte each; 0..=1 user property (0..=1-byte strings)
+    //@ unwindset: utf8_is_valid=3 slice_eq=5 expect_lp=5 Connect=5 any_user_props=3 clone=3 decode_variable_length_cursor=6 spec_check_connect_props=11
+    //@ assumes: strings well-formed UTF-8
+    //@ mem: 10  timeout: 1500
+    //@ desc: v5 CONNECT (without will) round trip: flags byte, property ids 0x11 0x15 0x16 0x17 0x19 0x21 0x22 0x26 0x27 and defaults per spec 3.1.2.11
+    fn rt5_connect() unwind(5) {
+        let c = any_connect5::<1>();
+        let codec = Codec::new();
+        let out = match enc5(&codec, Encoded::Packet(Packet::Connect(Box::new(c.clone())))) { Ok(o) => o, Err(_) => { assert!(false); return; } };
+        check_connect5(&c, &out);
+        assert!(dec_body5(&out, 0x10) == Ok(Packet::Connect(Box::new(c.clone()))));
+        vcover!(c.auth_method.is_some() && c.auth_data.is_some() && c.receive_max.is_some() && c.max_packet_size.is_some(), "four optional properties present");
+        vcover!(!c.request_problem_info && c.request_response_info && c.topic_alias_max != 0 && c.session_expiry_interval_secs != 0, "four defaulted properties non-default");
+        vcover!(c.username.is_some() && c.password.is_some(), "username and password");
+    }
+}
+
+vharness! {
+    //@ props: C01
+    //@ tier: quick
+    //@ functions: v5::Codec::encodev, EncodeLtd for Connect (will part), LastWill::properties_len, decode::decode_packet, Connect::decode, decode_last_will
+    //@ bounds: connect properties all default/absent, no username/password; WILL present with every will property symbolic (delay, expiry full width; content type, response topic, correlation data, topic, message 0..=1 byte; 0..=1 user property); will QoS/retain symbolic
+    //@ unwindset: utf8_is_valid=3 slice_eq=5 expect_lp=5 Connect=5 decode_last_will=9 spec_check_will_props=10 any_user_props=3 clone=3 decode_variable_length_cursor=6 spec_check_connect_props=3
+    //@ assumes: strings well-formed UTF-8
+    //@ mem: 10  timeout: 1500
+    //@ desc: v5 CONNECT with a will: will flag bits, will property ids 0x18 0x01 0x02 0x03 0x08 0x09 0x26, will topic and payload; round trip
+    fn rt5_connect_will() unwind(5) {
+        let mut c = Connect::default();
+        c.clean_start = vk::any_bool();
+        c.keep_alive = vk::any_u16();
+        c.client_id = vh::any_str::<1>();
+        c.last_will = Some(any_last_will5::<1>());
+        let codec = Codec::new();
+        let out = match enc5(&codec, Encoded::Packet(Packet::Connect(Box::new(c.clone())))) { Ok(o) => o, Err(_) => { assert!(false); return; } };
+        check_connect5(&c, &out);
+        assert!(dec_body5(&out, 0x10) == Ok(Packet::Connect(Box::new(c.clone()))));
+        let w = c.last_will.as_ref().unwrap();
+        vcover!(w.will_delay_interval_sec.is_some() && w.correlation_data.is_some() && w.message_expiry_interval.is_some(), "three will properties");
+        vcover!(w.content_type.is_some() && w.is_utf8_payload == Some(false) && w.response_topic.is_some() && w.user_properties.len() == 1, "four more will properties");
+    }
+}
+
+// ---- CONNACK ------------------------------------------------------------------------------------
+/// 3.2.2.3 connack properties (id: type, default): 0x11 u32; 0x21 u16 (65535, 0 illegal); 0x24 byte
+/// (2); 0x25 byte (1); 0x27 u32 (0 illegal); 0x12 str; 0x22 u16 (0); 0x1F str; 0x26 pair; 0x28 byte
+/// (1); 0x29 byte (1); 0x2A byte (1); 0x13 u16; 0x1A str; 0x1C str; 0x15 str; 0x16 bin
+fn spec_check_connack_props(r: &mut Rd<'_>, a: &ConnectAck) -> bool {
+    let end = props_begin(r);
+    let mut ok = true;
+    let mut seen = [false; 0x2B];
+    let mut idx = 0;
+    let mut guard = 0;
+    while r.pos < end && !r.bad && guard < 19 {
+        let id = r.u8();
+        if id as usize >= seen.len() {
+            return false;
+        }
+        if id != 0x26 {
+            ok &= !seen[id as usize];
+            seen[id as usize] = true;
+        }
+        match id {
+            0x11 => ok &= Some(r.u32()) == a.session_expiry_interval_secs,
+            0x21 => ok &= r.u16() == a.receive_max.get(),
+            0x24 => { let b = r.u8(); ok &= b <= 1 && b == vh::qos_num(a.max_qos); }
+            0x25 => { let b = r.u8(); ok &= b <= 1 && (b == 1) == a.retain_available; }
+            0x27 => ok &= Some(r.u32()) == a.max_packet_size,
+            0x12 => match &a.assigned_client_id { Some(s) => ok &= r.expect_lp(s.as_bytes()), None => ok = false },
+            0x22 => ok &= r.u16() == a.topic_alias_max,
+            0x1F => match &a.reason_string { Some(s) => ok &= r.expect_lp(s.as_bytes()), None => ok = false },
+            0x26 => ok &= expect_user_prop(r, &a.user_properties, &mut idx),
+            0x28 => { let b = r.u8(); ok &= b <= 1 && (b == 1) == a.wildcard_subscription_available; }
+            0x29 => { let b = r.u8(); ok &= b <= 1 && (b == 1) == a.subscription_identifiers_available; }
+            0x2A => { let b = r.u8(); ok &= b <= 1 && (b == 1) == a.shared_subscription_available; }
+            0x13 => ok &= Some(r.u16()) == a.server_keepalive_sec,
+            0x1A => match &a.response_info { Some(s) => ok &= r.expect_lp(s.as_bytes()), None => ok = false },
+            0x1C => match &a.server_reference { Some(s) => ok &= r.expect_lp(s.as_bytes()), None => ok = false },
+            0x15 => match &a.auth_method { Some(s) => ok &= r.expect_lp(s.as_bytes()), None => ok = false },
+            0x16 => match &a.auth_data { Some(s) => ok &= r.expect_lp(s), None => ok = false },
+            _ => ok = false,
+        }
+        guard += 1;
+    }
+    ok && r.pos == end && idx == a.user_properties.len()
+        && seen[0x11] == a.session_expiry_interval_secs.is_some()
+        && (seen[0x21] || a.receive_max.get() == 65535)
+        && (seen[0x24] || a.max_qos == QoS::ExactlyOnce)
+        && (seen[0x25] || a.retain_available)
+        && seen[0x27] == a.max_packet_size.is_some()
+        && seen[0x12] == a.assigned_client_id.is_some()
+        && (seen[0x22] || a.topic_alias_max == 0)
+        && seen[0x1F] == a.reason_string.is_some()
+        && (seen[0x28] || a.wildcard_subscription_available)
+        && (seen[0x29] || a.subscription_identifiers_available)
+        && (seen[0x2A] || a.shared_subscription_available)
+        && seen[0x13] == a.server_keepalive_sec.is_some()
+        && seen[0x1A] == a.response_info.is_some()
+        && seen[0x1C] == a.server_reference.is_some()
+        && seen[0x15] == a.auth_method.is_some()
+        && seen[0x16] == a.auth_data.is_some()
+}
+
+fn check_connack5(a: &ConnectAck, num: u8, out: &Bytes) {
+    let (mut r, _rl) = rd_header5(out, 0x20);
+    assert!(r.u8() == a.session_present as u8, "acknowledge flags: bit 0 session present, others 0");
+    assert!(r.u8() == num);
+    assert!(spec_check_connack_props(&mut r, a));
+    assert!(r.at_end() && !r.bad);
+}
+
+vharness! {
+    //@ props: C01
+    //@ tier: quick
+    //@ functions: v5::Codec::encodev, EncodeLtd for ConnectAck, encode_property(_default), encode_opt_props, encoded_size_opt_props, reduce_limit, var_int_len_from_size, decode::decode_packet, ConnectAck::decode
+    //@ bounds: the NUMERIC and FLAG properties: session present, all 22 reason codes, session expiry, receive max, max QoS (0..=1: QoS 2 is the absent default), retain/wildcard/sub-id/shared availability, max packet size (any u32 incl. 0 - the type admits it), topic alias max, server keep-alive - all symbolic, full width; string properties absent
+    //@ unwindset: ConnectAck=5 spec_check_connack_props=14 decode_variable_length_cursor=6 clone=3
+    //@ mem: 10  timeout: 1500
+    //@ desc: v5 CONNACK round trip, numeric half: property ids 0x11 0x21 0x24 0x25 0x27 0x22 0x28 0x29 0x2A 0x13 and their defaults per spec 3.2.2.3
+    fn rt5_connack_num() unwind(5) {
+        let (reason_code, num) = any_connack_reason();
+        let mut a = ConnectAck::default();
+        a.session_present = vk::any_bool();
+        a.reason_code = reason_code;
+        a.session_expiry_interval_secs = vh::any_opt_u32();
+        a.receive_max = vh::any_nz16();
+        a.max_qos = vh::any_qos();
+        a.max_packet_size = vh::any_opt_u32();
+        a.topic_alias_max = vk::any_u16();
+        a.retain_available = vk::any_bool();
+        a.wildcard_subscription_available = vk::any_bool();
+        a.subscription_identifiers_available = vk::any_bool();
+        a.shared_subscription_available = vk::any_bool();
+        a.server_keepalive_sec = vh::any_opt_u16();
+        let codec = Codec::new();
+        let out = match enc5(&codec, Encoded::Packet(Packet::ConnectAck(Box::new(a.clone())))) { Ok(o) => o, Err(_) => { assert!(false); return; } };
+        check_connack5(&a, num, &out);
+        assert!(dec_body5(&out, 0x20) == Ok(Packet::ConnectAck(Box::new(a.clone()))));
+        vcover!(a.max_qos == QoS::AtMostOnce && !a.retain_available && !a.wildcard_subscription_available && !a.subscription_identifiers_available && !a.shared_subscription_available, "all capability flags off");
+        vcover!(a.session_expiry_interval_secs.is_some() && a.max_packet_size.is_some() && a.server_keepalive_sec.is_some() && a.receive_max.get() == 1, "numeric options present");
+    }
+}
+
+vharness! {
+    //@ props: C01
+    //@ tier: quick
+    //@ functions: v5::Codec::encodev, EncodeLtd for ConnectAck, encode_property, encode_opt_props, encoded_size_opt_props, decode::decode_packet, ConnectAck::decode
+    //@ bounds: the STRING properties: assigned client id, response info, server reference, auth method, auth data, reason string each optional 0..=1 byte; 0..=1 user property (0..=1-byte strings); numeric properties at their defaults; reason code symbolic
+    //@ unwindset: utf8_is_valid=3 slice_eq=3 expect_lp=3 ConnectAck=9 spec_check_connack_props=9 any_user_props=3 encode_opt_props=3 encoded_size_opt_props=3 clone=3 decode_variable_length_cursor=6
+    //@ assumes: strings well-formed UTF-8
+    //@ mem: 10  timeout: 1500
+    //@ desc: v5 CONNACK round trip, string half: property ids 0x12 0x1A 0x1C 0x15 0x16 0x1F 0x26
+    fn rt5_connack_str() unwind(5) {
+        let (reason_code, num) = any_connack_reason();
+        let mut a = ConnectAck::default();
+        a.reason_code = reason_code;
+        a.assigned_client_id = vh::any_opt_str::<1>();
+        a.response_info = vh::any_opt_str::<1>();
+        a.server_reference = vh::any_opt_str::<1>();
+        a.auth_method = vh::any_opt_str::<1>();
+        a.auth_data = vh::any_opt_bin::<1>();
+        a.reason_string = vh::any_opt_str::<1>();
+        a.user_properties = any_user_props::<1, 1>();
+        let codec = Codec::new();
+        let out = match enc5(&codec, Encoded::Packet(Packet::ConnectAck(Box::new(a.clone())))) { Ok(o) => o, Err(_) => { assert!(false); return; } };
+        check_connack5(&a, num, &out);
+        assert!(dec_body5(&out, 0x20) == Ok(Packet::ConnectAck(Box::new(a.clone()))));
+        vcover!(a.assigned_client_id.is_some() && a.response_info.is_some() && a.server_reference.is_some(), "three string properties");
+        vcover!(a.auth_method.is_some() && a.auth_data.is_some() && a.reason_string.is_some() && a.user_properties.len() == 1, "auth + diagnostics");
+    }
+}
